@@ -402,6 +402,23 @@ theorem restore_from_any_repository (c : Cfg) (s : Str) (hs : StrOK s) (j : Ser)
   · intro ch hc
     exact hread .data ch (hdata ch hc)
 
+open Rustic.Store in
+/-- (12) **The index files the `Indexer` writes list exactly the packs it was given** — `add_with` saves the current file
+BEFORE resetting it when the blob count reaches `MAX_COUNT` (any threshold `maxCount`) or the file is older than `MAX_AGE`
+(`aged`: any schedule of age-triggered flushes), `finalize` saves the rest: nothing is lost at a flush, nothing is listed
+twice, order kept.  So the hypothesis `hfiles` of (7)–(10) holds for the files of the run's indexer
+(`indexer_files_satisfy_hfiles`). -/
+theorem indexer_files_list_every_pack (maxCount : Nat) (adds : List (Rustic.Index.IndexPack × Bool)) :
+    Rustic.Index.unmarked (Ixr.run maxCount adds).saved = adds.map (·.1) :=
+  ixr_run_unmarked maxCount adds
+
+open Rustic.Store Rustic.Archive in
+theorem indexer_files_satisfy_hfiles (c : Cfg) (k : Conc) (s : PSt) (maxCount : Nat) (aged : List Bool)
+    (hlen : aged.length = (indexedOf c k s).length) :
+    ∀ p, p ∈ Rustic.Index.unmarked (Ixr.run maxCount ((indexedOf c k s).zip aged)).saved ↔ p ∈ indexedOf c k s := by
+  intro p
+  rw [indexer_files_list_every_pack, List.map_fst_zip (by omega)]
+
 /-! non-vacuity -/
 
 example : EncAscii (fun c => if c.toNat < 128 then [UInt8.ofNat c.toNat] else [0xc3, 0xa9]) :=
@@ -465,5 +482,12 @@ open Rustic.Snapshot Rustic.Tree in
 example : WFL toySrc ∧ WalkableL toySrc ∧ depthL toySrc = 2 ∧ (treeItems (entriesL [] toySrc)).length = 6 ∧
     (saveL (fun ns => ns.length) (fun b => b.length) (fun d => [d]) noTree toySrc).trees.map (·.2.length) = [0, 2] := by
   refine ⟨by simp [toySrc, WFL, STree.WF], by simp [toySrc, WalkableL, STree.Walkable, Node.isDir], by decide, by decide, by decide⟩
+
+/-- the indexer flushing after every 3 blobs and once by age: three index files, every pack listed once -/
+example :
+    let p (i n : Nat) : Rustic.Index.IndexPack :=
+      { id := i, size := none, blobs := (List.range n).map fun b => { id := 10 * i + b, tpe := .data, loc := ⟨0, 1, none⟩ } }
+    let r := Rustic.Store.Ixr.run 3 [(p 1 2, false), (p 2 2, false), (p 3 1, true), (p 4 1, false)]
+    r.saved.map (fun f => f.packs.map (·.id)) = [[1, 2], [3], [4]] := by decide
 
 end Rustic.Props.C01
